@@ -708,6 +708,10 @@ class Screen(BaseScreen, RealTerminal):
             if whitespace_at_end:
                 output.append(escape.ERASE_IN_LINE_RIGHT)
 
+        if encoding != "utf-8" and last_charset_flag == "U":
+            # do not leave the IBMPC mapping selected for the next frame
+            output.append(escape.IBMPC_OFF)
+
         if canvas.cursor is not None:
             x, y = canvas.cursor
             output += [set_cursor_position(x, y), escape.SHOW_CURSOR]
